@@ -1,5 +1,6 @@
 import QP.Model.PT
 import QP.Proofs.PTExamples
+import QP.Proofs.PTTop2
 import QP.Proofs.PTTable
 /-!
 # C01 — an instantiated program plays exactly the voltages the template describes
@@ -27,16 +28,16 @@ open QP.PT
 `[0, duration)`, yields on every channel of the denoted pulse exactly the denoted voltage — a value, never NaN —
 and every played piece defines exactly the channels of the denoted pulse (dropped channels absent, no other
 channel appears). -/
-theorem compile_correct_partial {pt : PT} (hs : Stage1 pt) (params : List (String × Rat))
+theorem compile_correct_partial {pt : PT} (hs : Stage2 pt) (params : List (String × Rat))
     (mm : Option (List (MName × Option MName))) (cm : List (Chan × Option Chan)) (prog : Loop) (P : Pulse)
     (hprog : createProgram pt params mm cm [] = .ok (some prog))
     (hden : denoteTop pt params mm cm = .ok P) (hpos : prog.allPos) :
     (∀ cs ∈ prog.leafChannels, ∀ x, x ∈ cs ↔ x ∈ P.chanNames) ∧
     ∀ c pl, P.chans.lookup c = some pl → ∀ t, 0 ≤ t → t < P.dur →
       ∃ v, prog.sample c t = some v ∧ PL.at pl t = some v := by
-  refine ⟨(createProgram_rel hs params mm cm prog P hprog hden hpos).2.2.2, ?_⟩
+  refine ⟨(createProgram_rel_basic hs.basic params mm cm prog P hprog hden hpos).2.2.2, ?_⟩
   intro c pl hc t ht0 ht
-  obtain ⟨_, hsample, _⟩ := createProgram_rel hs params mm cm prog P hprog hden hpos
+  obtain ⟨_, hsample, _⟩ := createProgram_rel_basic hs.basic params mm cm prog P hprog hden hpos
   have := hsample c pl hc t ht0 ht
   -- the denoted function is defined on the whole of `[0, duration)`
   have hrel : ∃ v, PL.at pl t = some v := by
@@ -118,13 +119,13 @@ theorem guard_keeps_nodes (ms : List Window) (items : List Item) : nodesOf (guar
 /-! ## Non-vacuity: the hypotheses of `compile_correct_partial` are satisfiable
 (`QP/Proofs/PTExamples.lean` evaluates `createProgram`, `denoteTop` and `allPos` on `exPt`) -/
 
-example : Stage1 (.seq none [exPt, .rep none exPt (.var "n") [] []] [] []) :=
-  Stage1.seq (by
+example : Stage2 (.seq none [exPt, .rep none exPt (.var "n") [] []] [] []) :=
+  Stage2.seq (by
     intro p hp
     simp only [List.mem_cons, List.not_mem_nil, or_false] at hp
     rcases hp with rfl | rfl
-    · exact Stage1.const
-    · exact Stage1.rep Stage1.const)
+    · exact Stage2.atom AtomTree.const
+    · exact Stage2.rep (Stage2.atom AtomTree.const))
 
 example : ∃ prog P, createProgram exPt [] none [] [] = .ok (some prog) ∧ denoteTop exPt [] none [] = .ok P ∧
     prog.allPos := ⟨exProg, _, exPt_program, exPt_denote, exProg_allPos⟩
